@@ -1,6 +1,7 @@
 package world
 
 import (
+	"bytes"
 	"fmt"
 	"time"
 
@@ -18,10 +19,71 @@ type Sim struct {
 	Keys map[string]Account
 	// InitVals is the validator list returned by InitChain.
 	InitVals []abci.ValidatorUpdate
+	// Replicas execute every block of Exec/Step as well (own store, own fake EL, other node key);
+	// any difference in app hash or transaction results is returned as a "replica divergence" error.
+	Replicas []*Node
+}
+
+// AddReplica attaches a replica; it must be called before the first block.
+func (s *Sim) AddReplica() error {
+	n, err := NewNode(dbm.NewMemDB(), nil, 1+len(s.Replicas), s.Spec.ChainID)
+	if err != nil {
+		return err
+	}
+	if _, err := n.InitChain(s.Spec); err != nil {
+		n.Close()
+		return err
+	}
+	s.Replicas = append(s.Replicas, n)
+	return nil
+}
+
+// DivergenceError reports that two executions of the same block disagree.
+type DivergenceError struct{ Detail string }
+
+func (e *DivergenceError) Error() string { return "replica divergence: " + e.Detail }
+
+func compareFinalize(a, b *abci.ResponseFinalizeBlock) string {
+	if !bytes.Equal(a.AppHash, b.AppHash) {
+		return fmt.Sprintf("app hash %X vs %X", a.AppHash, b.AppHash)
+	}
+	if len(a.TxResults) != len(b.TxResults) {
+		return "number of tx results"
+	}
+	for i := range a.TxResults {
+		x, y := a.TxResults[i], b.TxResults[i]
+		if x.Code != y.Code || x.Codespace != y.Codespace {
+			return fmt.Sprintf("tx %d code %d/%s vs %d/%s", i, x.Code, x.Codespace, y.Code, y.Codespace)
+		}
+		if x.GasUsed != y.GasUsed || x.GasWanted != y.GasWanted {
+			return fmt.Sprintf("tx %d (code %d) gas used %d vs %d (%s)", i, x.Code, x.GasUsed, y.GasUsed, x.Log)
+		}
+		if !bytes.Equal(x.Data, y.Data) {
+			return fmt.Sprintf("tx %d data", i)
+		}
+	}
+	return ""
 }
 
 // NewSim starts a node, runs InitChain and seeds the consensus model.
+// ReplicasWanted makes every new Sim attach that many replicas (used by the determinism property).
+var ReplicasWanted = 0
+
 func NewSim(spec GenesisSpec) (*Sim, error) {
+	s, err := newSim(spec)
+	if err != nil {
+		return nil, err
+	}
+	for i := 0; i < ReplicasWanted; i++ {
+		if err := s.AddReplica(); err != nil {
+			s.Close()
+			return nil, err
+		}
+	}
+	return s, nil
+}
+
+func newSim(spec GenesisSpec) (*Sim, error) {
 	n, err := NewNode(dbm.NewMemDB(), nil, 0, spec.ChainID)
 	if err != nil {
 		return nil, err
@@ -56,6 +118,9 @@ func (s *Sim) RegisterKey(a Account) { s.Keys[string(a.Addr())] = a }
 func (s *Sim) Close() {
 	if s.Node != nil {
 		s.Node.Close()
+	}
+	for _, r := range s.Replicas {
+		r.Close()
 	}
 }
 
@@ -133,6 +198,19 @@ func (s *Sim) Exec(b Block, txs [][]byte, process bool) (*StepResult, error) {
 		return res, fmt.Errorf("FinalizeBlock height %d: %w", b.Height, err)
 	}
 	res.Resp = resp
+	for i, r := range s.Replicas {
+		rr, err := r.Finalize(res.Req)
+		if err != nil {
+			return res, &DivergenceError{Detail: fmt.Sprintf("replica %d FinalizeBlock failed at height %d: %v", i, b.Height, err)}
+		}
+		if d := compareFinalize(resp, rr); d != "" {
+			return res, &DivergenceError{Detail: fmt.Sprintf("height %d replica %d: %s", b.Height, i, d)}
+		}
+		if err := r.Commit(); err != nil {
+			return res, fmt.Errorf("replica Commit: %w", err)
+		}
+		r.Eng.TakeLog()
+	}
 	if err := s.Node.Commit(); err != nil {
 		return res, fmt.Errorf("Commit: %w", err)
 	}
@@ -183,6 +261,19 @@ func (s *Sim) ExecTwin(b Block, txsWithout, txsWith [][]byte) (*TwinResult, erro
 	res.With = r2
 	res.DumpWith = s.Node.DumpStores(s.Node.FinalizeCtx())
 	s.Node.Eng.TakeLog()
+	for i, r := range s.Replicas {
+		rr, err := r.Finalize(b.FinalizeReq(txsWith, s.Chain.NextVals.Hash()))
+		if err != nil {
+			return res, &DivergenceError{Detail: fmt.Sprintf("replica %d FinalizeBlock failed at height %d: %v", i, b.Height, err)}
+		}
+		if d := compareFinalize(r2, rr); d != "" {
+			return res, &DivergenceError{Detail: fmt.Sprintf("height %d replica %d: %s", b.Height, i, d)}
+		}
+		if err := r.Commit(); err != nil {
+			return res, fmt.Errorf("replica Commit: %w", err)
+		}
+		r.Eng.TakeLog()
+	}
 	if err := s.Node.Commit(); err != nil {
 		return res, fmt.Errorf("Commit: %w", err)
 	}
